@@ -17,17 +17,3 @@ fn c08d_get_datetime_total() {
     let _ = get_datetime(d, Duration::milliseconds(t as i64));
 }
 
-/// volume::Header::date_time == get_datetime(date as u16, ms(time)); the header stores the day count in 32
-/// bits and keeps its low 16, which is the identity on the property's domain d <= 65535
-#[kani::proof]
-fn c08d_volume_header_date_time() {
-    let d: u16 = kani::any();
-    let t: u32 = kani::any();
-    let mut b = [0u8; 24];
-    b[12..16].copy_from_slice(&(d as u32).to_be_bytes());
-    b[16..20].copy_from_slice(&t.to_be_bytes());
-    let mut r: &[u8] = &b;
-    let h = crate::volume::Header::deserialize(&mut r).unwrap();
-    assert!(r.is_empty());
-    assert!(h.date_time() == get_datetime(d, Duration::milliseconds(t as i64)));
-}
